@@ -15,7 +15,7 @@ from . import core
 class SuiteCfg:
     def __init__(self, name, parts_thorough=16, timeout=3000, nontrivial=None, signature=None,
                  has_spec=False, describe="", kind="diff", observable=None, classify=None, env=None,
-                 stateless=False, tags="", suite_arg=None, should_shrink=None):
+                 stateless=False, tags="", suite_arg=None, should_shrink=None, binary=None):
         self.name = name
         self.parts_thorough = parts_thorough
         self.timeout = timeout
@@ -45,16 +45,20 @@ class SuiteCfg:
         # should_shrink(failure_dict) -> False for failures whose re-runs are too slow to minimise
         # (e.g. every re-run waits for a watchdog); default: always shrink
         self.should_shrink = should_shrink or (lambda f: True)
+        # binary: the property whose harness binary runs this suite (default: the check's own)
+        self.binary = binary
 
 
 class PropCfg:
-    def __init__(self, pid, module, suites, rule, assumptions=None, extra_trusted=None):
+    def __init__(self, pid, module, suites, rule, assumptions=None, extra_trusted=None, extra_modules=None):
         self.id = pid
         self.module = module
         self.suites = suites
         self.rule = rule
         self.assumptions = assumptions or []
         self.extra_trusted = extra_trusted or []
+        # further Props modules whose Cxx_* theorems belong to this property
+        self.extra_modules = extra_modules or []
 
 
 def default_signature(case_ops, impl_outs, model_outs, k):
@@ -68,7 +72,7 @@ def run_case(prop, suite, ops, spec=False):
     """run one case alone on implementation and model; returns (impl_outs, model_outs)"""
     env = core.goenv()
     env.update(suite.env)
-    rc, io, ie = core.run_lines([core.hv_path(prop, suite.tags), suite.suite_arg, "run"], ops, env=env)
+    rc, io, ie = core.run_lines([core.hv_path(suite.binary or prop, suite.tags), suite.suite_arg, "run"], ops, env=env)
     if rc != 0 and len(io) < len(ops) and suite.kind != "monitor":
         io = io + ["<crash>"] + ["<skipped>"] * (len(ops) - len(io) - 1)
     if suite.kind == "monitor":
@@ -201,9 +205,20 @@ def run_check(cfg, tier, seed):
         if not gok:
             notes.append("translator failed: " + gout[-1500:])
         pr = core.prove(pid, cfg.module, tier)
+        for em in cfg.extra_modules:
+            pe = core.prove(pid, em, tier)
+            pr["theorems"] += pe["theorems"]
+            pr["examples"] += pe["examples"]
+            pr["obligations"] += pe["obligations"]
+            pr["discharged"] += pe["discharged"]
+            pr["failed"] += pe["failed"]
+            pr["axioms"].update(pe["axioms"])
+            pr["ok"] = pr["ok"] and pe["ok"]
+            if pe.get("log"):
+                pr["log"] = (pr.get("log") or "") + pe["log"]
         hok, hout = True, ""
-        for tg in sorted({s.tags for s in cfg.suites}):
-            ok1, out1 = core.build_hv(pid, tg)
+        for bp, tg in sorted({(s.binary or pid, s.tags) for s in cfg.suites}):
+            ok1, out1 = core.build_hv(bp, tg)
             hok, hout = hok and ok1, hout + out1
 
     if not os.path.exists(core.HOPMODEL):
@@ -220,7 +235,7 @@ def run_check(cfg, tier, seed):
         if hok and os.path.exists(core.HOPMODEL):
             for suite in cfg.suites:
                 parts = suite.parts_thorough if tier == "thorough" else 1
-                ties = [core.Tie(pid, suite.name, tier, seed, work, p, parts, suite.tags, suite.suite_arg)
+                ties = [core.Tie(suite.binary or pid, suite.name, tier, seed, work, p, parts, suite.tags, suite.suite_arg)
                         for p in range(parts)]
                 stats = {"ops": 0, "cases": 0, "distinct": set(), "hist": collections.Counter(), "samples": []}
 
@@ -254,7 +269,7 @@ def run_check(cfg, tier, seed):
                 if failures:
                     break
                 parts = suite.parts_thorough
-                ties = [core.Tie(pid, suite.name, "thorough", seed, work, p, parts, suite.tags, suite.suite_arg)
+                ties = [core.Tie(suite.binary or pid, suite.name, "thorough", seed, work, p, parts, suite.tags, suite.suite_arg)
                         for p in range(parts)]
                 sstats = {"ops": 0, "cases": 0, "distinct": set(), "hist": collections.Counter(), "samples": []}
 
@@ -408,8 +423,8 @@ def replay(cfg, path):
     with core.Lock():
         core.regenerate()
         core.lake_build(["hopmodel"])
-        for tg in sorted({s.tags for s in cfg.suites}):
-            ok, out = core.build_hv(cfg.id, tg)
+        for bp, tg in sorted({(s.binary or cfg.id, s.tags) for s in cfg.suites}):
+            ok, out = core.build_hv(bp, tg)
             if not ok:
                 print(out)
                 return 2
@@ -442,8 +457,8 @@ def setup(all_props):
             return 1
         for pid in sorted(all_props):
             ok, out = True, ""
-            for tg in sorted({s.tags for s in all_props[pid].suites}):
-                ok1, out1 = core.build_hv(pid, tg)
+            for bp, tg in sorted({(s.binary or pid, s.tags) for s in all_props[pid].suites}):
+                ok1, out1 = core.build_hv(bp, tg)
                 ok, out = ok and ok1, out + out1
             if not ok:
                 print("setup: harness for %s does not build (its check will report it)\n%s" % (pid, out[-1500:]))
